@@ -434,6 +434,146 @@ def oracle(ctx, sides, prop, plan):
     return concrete
 
 
+CONC_SHARDS = 8
+
+
+def conc_family(ctx, sides, prop, rounds):
+    """C07, concurrent family (harness/cmd/cache/conc.go): one writer goroutine, several reader goroutines through the
+    cache and a child view; every answer must be the direct-application answer in SOME state between the last mutation
+    completed before the read started and the last mutation started before it ended (atomic counters, no clocks).
+    A sample of the sequential histories goes through the Lean model and the classifier: Impl = Model on every line
+    and no deviation of the model from direct application (the family stays inside the class of ryw_partial, where
+    the reference's answers are the model's view).  Returns concrete_found."""
+    def one(k):
+        out = ctx.path("conc%02d.out" % k)
+        rc, err = sh(ctx, [sides.go, "conc", str(rounds), str(k), str(CONC_SHARDS)], stdout=out, timeout=ctx.pick(300, 1500))
+        if rc == 124:
+            return k, None
+        if rc != 0:
+            raise RuntimeError("conc failed: " + err[-300:])
+        return k, out
+    with concurrent.futures.ThreadPoolExecutor(CONC_SHARDS) as ex:
+        outs = list(ex.map(one, range(CONC_SHARDS)))
+    concrete = False
+    tot = {}
+    sample = []
+    reported = 0
+    failing = 0
+    for k, out in outs:
+        if out is None:
+            ctx.violation("impl-vs-spec", "concurrent family shard %d did not finish (a call through the cache never returns)" % k,
+                          lines=["conc %d %d %d -1" % (ctx.seed, k, CONC_SHARDS)], concrete=True)
+            concrete = True
+            continue
+        head, vs, hist = None, [], []
+        for l in open(out, "r", errors="replace"):
+            l = l.rstrip("\n")
+            if l.startswith("S "):
+                sample.append(l[2:])
+            elif l.startswith("R "):
+                head = dict(t.split("=", 1) for t in l.split()[1:])
+            elif l.startswith("V "):
+                vs.append(l[2:])
+            elif l.startswith("H "):
+                hist.append(l[2:])
+            elif l == "E":
+                failing += 1
+                if reported < 3 and head:
+                    reported += 1
+                    seqonly = all(v.startswith(("sequential", "setup")) for v in vs if not v.startswith(" "))
+                    ctx.violation(
+                        "impl-vs-spec",
+                        "concurrent family (one writer, %s readers through the cache and a child view, GOMAXPROCS=%s, round %s of "
+                        "shard %s/%s): %s\n%s\nreplay re-runs this round repeatedly (the interleaving is not forced); the op "
+                        "lines below are the round's history in sequential form" % (
+                            head.get("readers"), head.get("gomaxprocs"), head.get("round"), head.get("shard"), head.get("nshards"),
+                            "the sequential answers differ from direct application (the family left its class or the code changed "
+                            "sequentially)" if seqonly else
+                            "an answer equals the read-your-writes answer in NO state between the last mutation completed before "
+                            "the read started and the last mutation started before it ended",
+                            "\n".join(v[:500] for v in vs[:8])),
+                        lines=["conc %s %s %s %s %s" % (head.get("seed"), head.get("shard"), head.get("nshards"), head.get("round"),
+                                                       head.get("kinds", ""))] + ["# " + h for h in hist],
+                        annotations=[v[:600] for v in vs[:8]], concrete=True)
+                    concrete = True
+                head, vs, hist = None, [], []
+            elif l.startswith("conc "):
+                for tok in l.split()[1:]:
+                    key, _, v = tok.partition("=")
+                    tot[key] = tot.get(key, 0) + int(v)
+        os.unlink(out)
+    ctx.evaluations += tot.get("reads", 0) + tot.get("mutations", 0)
+    for key, v in tot.items():
+        if ":" in key:
+            ctx.histogram["conc:" + key] += v
+    # the sample through the model
+    model_lines = 0
+    if sample:
+        ops = ctx.path("conc_sample.ops")
+        with open(ops, "w") as h:
+            h.write("\n".join(sample) + "\n")
+        a, b, c = sides.run_files(ops, "conc_sample")
+        diffs = diff_indices(ops, a, b)
+        cls = parse_cls(c)
+        model_lines = len(sample)
+        ctx.evaluations += model_lines
+        if diffs:
+            _, hist = history_at(sample, diffs[0])
+            concrete |= judge(ctx, sides, prop, hist, "concurrent family, sequential form of a round")
+        for line, cl in cls.items():
+            if cl["c07"] or classes_for(prop, cl["classes"]):
+                _, hist = history_at(sample, line)
+                ctx.violation("impl-vs-model", "concurrent family: the sequential form of a round is not inside the class of "
+                              "ryw_partial (classes %s, model/spec deviations %d, first %s): its reference answers are not the "
+                              "model's view" % (",".join(cl["classes"]) or "-", cl["c07"], cl["first"]), lines=hist, concrete=False)
+                break
+        for f in (ops, a, b, c):
+            if os.path.exists(f):
+                os.unlink(f)
+    ctx.extra["concurrent"] = dict(
+        rounds=tot.get("rounds", 0), failing_rounds=failing, mutations=tot.get("mutations", 0), reads=tot.get("reads", 0),
+        reads_overlapping_a_mutation=tot.get("overlapping", 0), reads_with_exactly_known_state=tot.get("exact", 0),
+        overlapping_reads_answering_oldest_state=tot.get("window-old", 0),
+        overlapping_reads_answering_newest_state=tot.get("window-new", 0),
+        overlapping_reads_answering_inner_state=tot.get("window-inner", 0),
+        violations=tot.get("violations", 0), shards=CONC_SHARDS,
+        sequential_lines_through_the_model=model_lines,
+        writer_mutation_kinds="WriteFile, MkdirAll (one new level), Remove of buffer-only file / empty directory; reader side: "
+                              "IsExist IsFile IsDir ReadFile Reader Lstat ReadDir + CopyFile-source",
+        left_out="Writer streams and CopyFile as the writer's mutations: on the unchanged code Lstat answers the size of the "
+                 "prefix written so far while the stream is open (`cache conc <n> kinds=write,writer,copyfile,mkdir,remove,copysrc` "
+                 "shows it)")
+    if tot.get("rounds", 0) and not tot.get("overlapping", 0):
+        ctx.notes.append("concurrent family: no read overlapped a mutation")
+    return concrete
+
+
+def replay_conc(ctx, sides, line):
+    """replay file of the concurrent family: `conc <seed> <shard> <nshards> <round> [<kinds>]` - the round is re-run
+    many times (the interleaving is up to the scheduler)"""
+    f = line.split()
+    if len(f) < 5:
+        print("malformed conc line")
+        return 2
+    e = ctx.goenv()
+    e["VERIF_SEED"] = f[1]
+    argv = [sides.go, "conc", str(int(f[4]) + 1) if f[4] != "-1" else "64", f[2], f[3]]
+    if f[4] != "-1":
+        argv += ["only=" + f[4], "repeat=400"]
+    if len(f) > 5:
+        argv += ["kinds=" + f[5]]
+    p = subprocess.run(argv, env=e, stdout=subprocess.PIPE, stderr=subprocess.STDOUT, timeout=1200)
+    out = p.stdout.decode("utf-8", "replace").split("\n")
+    bad = [l for l in out if l.startswith(("R ", "V "))]
+    for l in bad[:20]:
+        print(l[:600])
+    for l in out:
+        if l.startswith("conc "):
+            print(l[:400])
+    print("replay:", "still failing" if bad else "no violating interleaving in 400 runs of the round")
+    return 1 if bad else 0
+
+
 def replay_findings(ctx, sides, prop):
     """replay the witness of every listed finding of this property"""
     for kf in ctx.known_findings():
@@ -524,6 +664,8 @@ def account(ctx, results):
 def replay(ctx, path, prop):
     sides = Sides(ctx)
     hist = lib.replay_ops(path)
+    if hist and hist[0].startswith("conc "):
+        return replay_conc(ctx, sides, hist[0])
     if not hist or hist[0] != "reset":
         hist = ["reset"] + hist
     if not any(l.startswith("classify") for l in hist):
